@@ -77,7 +77,7 @@ func main() {
 		{"C08", []string{"clover..buildQueryPlan", "clover.sortNode.Finish", "clover.sortNode.Callback", "clover..compareDocuments",
 			"query..normalizeSortOptions", "query.Query.Sort", "clover..execPlan", "clover.consumerNode.Callback"}},
 		{"C02", []string{"clover..tryToSelectIndex", "clover..getIndexQueries", "clover.iterNode.iterateIndex", "clover.iterNode.iterateFullCollection", "clover.iterNode.Run",
-			"clover.NotFlattenVisitor.VisitUnaryCriteria", "clover.NotFlattenVisitor.VisitBinaryCriteria", "clover.NotFlattenVisitor.VisitNotCriteria", "clover.NotFlattenVisitor.removeNotCriteria",
+			"clover.NotFlattenVisitor.VisitUnaryCriteria", "clover.NotFlattenVisitor.VisitBinaryCriteria", "clover.NotFlattenVisitor.VisitNotCriteria",
 			"clover.IndexSelectVisitor.VisitUnaryCriteria", "clover.IndexSelectVisitor.VisitBinaryCriteria", "clover.IndexSelectVisitor.VisitNotCriteria",
 			"clover.FieldRangeVisitor.VisitUnaryCriteria", "clover.FieldRangeVisitor.VisitBinaryCriteria", "clover.FieldRangeVisitor.VisitNotCriteria",
 			"index.RangeIndexQuery.Run"}},
@@ -141,7 +141,7 @@ func main() {
 	translated := []string{"index.Range.IsEmpty", "index.Range.IsNil", "index.Range.Intersect", "internal..compareInt64", "internal..compareUint64",
 		"util..BoolToInt", "clover.skipLimitNode.Callback", "clover..unaryCriteriaToRange",
 		"query.UnaryCriteria.compare", "query.UnaryCriteria.eq", "query.UnaryCriteria.exist", "query.BinaryCriteria.Satisfy", "query.NotCriteria.Satisfy",
-		"query.Query.copy", "query.Query.Skip", "query.Query.Limit"}
+		"query.Query.copy", "query.Query.Skip", "query.Query.Limit", "clover.NotFlattenVisitor.removeNotCriteria"}
 	wanted := map[string]bool{}
 	for _, f := range translated {
 		wanted[f] = true
